@@ -199,3 +199,67 @@ def site_pair_matrices(types, rho):
             pair[i, j] = rho[a] * rho[b]
             site[i, j] = rho[a] if i == j else rho[a] + rho[b]
     return site, pair
+
+
+# --------------------------------------------------------------------------
+# array versions (same relations, used where the reference is evaluated after
+# every cost evaluation of a solver trajectory)
+
+def ref_potential_vec(pspec, r, sigma):
+    name, p = pspec
+    r = np.asarray(r, dtype=float)
+    hv = p.get('high_value', 1e6)
+    core = in_core(r, sigma)
+    with np.errstate(all='ignore'):
+        x = sigma / r
+        if name == 'HS':
+            tail = np.zeros(r.shape)
+        elif name == 'HCLJ':
+            tail = p['epsilon'] * (x ** 12 - 2.0 * x ** 6)
+        elif name == 'EXP':
+            tail = -p['epsilon'] * np.exp(-(r - sigma) / p['alpha'])
+        elif name == 'LJ':
+            tail = 4.0 * p['epsilon'] * (x ** 12 - x ** 6)
+            rc = p.get('rcut')
+            if rc is not None:
+                if p.get('shift', False):
+                    xc = sigma / rc
+                    tail = tail - 4.0 * p['epsilon'] * (xc ** 12 - xc ** 6)
+                tail = np.where(r > rc, 0.0, tail)
+            return tail
+        elif name == 'WCA':
+            rc = sigma * 2.0 ** (1.0 / 6.0)
+            tail = np.where(r > rc, 0.0, 4.0 * p['epsilon'] * (x ** 12 - x ** 6) + p['epsilon'])
+            return tail
+        else:
+            raise KeyError(name)
+    return np.where(core, hv, tail)
+
+
+def ref_closure_vec(name, hc, r, sigma, gamma, u, ms_variant='inside'):
+    r = np.asarray(r, dtype=float)
+    g = np.asarray(gamma, dtype=float)
+    u = np.asarray(u, dtype=float)
+    core = in_core(r, sigma) if hc else np.zeros(r.shape, dtype=bool)
+    with np.errstate(all='ignore'):
+        if name == 'PY':
+            f = np.exp(-u) - 1.0
+            c, s = f * (1.0 + g), f
+        elif name == 'HNC':
+            e = np.exp(g - u)
+            c, s = e - 1.0 - g, e - 1.0
+        elif name == 'MSA':
+            c, s = -u, np.zeros(g.shape)
+        elif name == 'MS':
+            if ms_variant == 'inside':
+                q = np.sqrt(1.0 + 2.0 * (g - u))
+                e = np.exp(q - 1.0)
+            else:
+                q = np.sqrt(1.0 + 2.0 * g)
+                e = np.exp(-u + q - 1.0)
+            c, s = e - 1.0 - g, e / q - 1.0
+        else:
+            raise KeyError(name)
+    c = np.where(core, -1.0 - g, c)
+    s = np.where(core, -1.0, s)
+    return c, s, core
